@@ -127,3 +127,12 @@ impl Runtime {
         }
     }
 }
+
+#[cfg(vrl_verif)]
+impl Runtime {
+    /// verification hook: read-only access to the runtime state.
+    #[must_use]
+    pub fn verif_state(&self) -> &state::RuntimeState {
+        &self.state
+    }
+}
